@@ -542,6 +542,25 @@ func (c *handlerCtx) handleCall() {
 	c.pluginContainer.postWriteReply(c)
 }
 
+// refuseCall replies an error to a received call that can not be handled
+// because of insufficient goroutine resources, so that the caller does not
+// wait for a reply that never comes. It does nothing for the other message types.
+func (c *handlerCtx) refuseCall() {
+	if c.input.Mtype() != TypeCall {
+		return
+	}
+	defer func() {
+		if p := recover(); p != nil {
+			Errorf("panic:%v\n%s", p, goutil.PanicTrace(2))
+		}
+	}()
+	c.output.SetMtype(TypeReply)
+	c.output.SetSeq(c.input.Seq())
+	c.output.SetServiceMethod(c.input.ServiceMethod())
+	c.output.XferPipe().AppendFrom(c.input.XferPipe())
+	c.writeReply(statInternalServerError.Copy("insufficient goroutine resources"))
+}
+
 // ReplyBodyCodec initializes and returns the reply message body codec id.
 func (c *handlerCtx) ReplyBodyCodec() byte {
 	id := c.output.BodyCodec()
